@@ -34,6 +34,15 @@ try:
     readme = open(os.path.join(src, "README.txt")).read()
     m = None
     for ln in readme.splitlines():
+        if ln.strip().lower().startswith("cmake-flags:") and not demo_cmake:
+            fl = ln.split(":", 1)[1].strip().strip('"')
+            if fl and fl.lower() not in ("none", "-", "(none)"):
+                demo_cmake = " ".join("'%s'" % f.strip('"\'') for f in re.findall(r'"?-D[A-Za-z_]+=[^\s"]*"?', fl))
+    for ln in readme.splitlines():
+        if ln.strip().startswith("run:"):
+            m = ln.strip()[4:].strip()
+            break
+    for ln in (readme.splitlines() if m is None else []):
         if ("gcc " in ln or " cc " in (" " + ln) or "clang " in ln or "demo.sh" in ln or "python3 " in ln) and "demo" in ln:
             mm = re.search(r"((?:[A-Za-z_]+=\S+\s+)*(?:gcc|cc|clang|sh|bash|python3)\s.*)$", ln.strip())
             m = mm.group(1) if mm else ln.strip()
